@@ -362,6 +362,7 @@ func registerIntrinsics(e *Engine) {
 	})
 
 	registerStrings(e)
+	registerReflect(e)
 	registerNumParse(e)
 	registerSync(e)
 	registerContext(e)
